@@ -173,11 +173,11 @@ def run_entry(j, name, mode, kinds, fn, rng):
     names = ["p%d" % i for i in range(len(kinds))]
     syms = [S(n) for n in names]
     fixed = {}
-    if mode == "mixed" and len(kinds) > 1:
-        # every second parameter is a plain number
-        for i in range(1, len(kinds), 2):
+    if mode in ("mixed", "mixed-number-first") and len(kinds) > 1:
+        # every second parameter is a plain number, starting with the second or with the first one
+        for i in range(1 if mode == "mixed" else 0, len(kinds), 2):
             fixed[i] = 0.7 if kinds[i] == "angle" else -1.5
-    elif mode == "mixed":
+    elif mode != "all-symbolic":
         return "skip"
     args = [fixed.get(i, syms[i]) for i in range(len(kinds))]
     site, feat = name, mode
@@ -224,9 +224,8 @@ def run_entry(j, name, mode, kinds, fn, rng):
     for _ in range(40):
         if const_mask is None or not const_mask.any():
             break
-        full = [fixed.get(i) for i in range(len(kinds))]
-        for i in free:
-            full[i] = rng.uniform(-3.0, 3.0) if kinds[i] == "angle" else rng.uniform(-10, 10)
+        # (the positions held at a plain number vary too: a value that is 0 / 1 only for THAT number is not structural)
+        full = [rng.uniform(-3.0, 3.0) if kinds[i] == "angle" else rng.uniform(-10, 10) for i in range(len(kinds))]
         try:
             rn = to_array(fn(*full)).astype(float)
         except Exception:  # noqa: BLE001
